@@ -237,8 +237,9 @@ def _c11():
 
 
 def export_model_stream(ctx, cases):
-    """(C06, module level) `EWF` on what elaboration left behind (the hypothesis of `export_module_wf`), and the model's
-    `exportModule` of it against the module the real exporter wrote."""
+    """(C06, module level) `EWF` on what elaboration left behind (the hypothesis of `export_module_wf` and of
+    `export_module_wf_ports_first` — the theorem exists for either place of the internal signals), and the model's
+    `exportModule` / `exportModulePF` of it (whichever layout the probe module shows) against the module the real exporter wrote."""
     rep = ctx.rep
     impls = common.pmap(impl_export_model, cases, chunk=8)
     idx = [k for k, im in enumerate(impls) if "hmods" in im]
